@@ -104,8 +104,10 @@ EXTRA_POOL = [   # (model location, how it is rendered)
 ]
 
 CLI = [["backup"], ["install"], ["restore"], ["uninstall"], ["uninstall", "service"], ["uninstall", "package"],
-       ["purge"], ["restore", "false"], ["bogus"]]
-CLI_WEIGHTS = [5, 5, 6, 1, 2, 3, 2, 1, 0.3]
+       ["purge"], ["restore", "false"], ["restore", "true"], ["bogus"]]
+CLI_WEIGHTS = [5, 5, 5, 1, 3, 4, 2, 2.5, 0.7, 0.3]
+FAULT_CODES = [1, 1, 5, 3, 4, 124]
+RESTORES = (("restore",), ("restore", "true"), ("restore", "false"))
 
 
 def gen_scenario(rng, ix):
@@ -148,9 +150,19 @@ def gen_scenario(rng, ix):
     cmds = [list(rng.choices(CLI, CLI_WEIGHTS)[0]) for _ in range(n)]
     if rng.random() < 0.45:
         at = rng.randint(0, max(0, n - 3))
-        cmds[at:at + 3] = [["backup"], ["install"], ["restore"]]
+        cmds[at:at + 3] = [["backup"], ["install"], list(rng.choice(RESTORES + (("restore",),)))]
+        if rng.random() < 0.3:      # a second upgrade cycle after the first (leftover backup when `restore false`)
+            cmds[at + 3:at + 6] = [["backup"], ["install"], ["restore"]]
         cmds = cmds[:8]
-    return {"id": ix, "classes": {"system": kind, "backup": bk, "package": pk}, "files": files, "extras": extras,
+    if rng.random() < 0.2 and len(cmds) >= 2:   # uninstall twice: the second finds no unit file
+        at = rng.randint(0, len(cmds) - 2)
+        cmds[at:at + 2] = [["uninstall", "service"], ["uninstall", "package"]]
+    # fault stream: per command the exit status of its k-th systemctl call (0 = behave normally)
+    if rng.random() < 0.4:
+        faults = [[(rng.choice(FAULT_CODES) if rng.random() < 0.3 else 0) for _ in range(6)] for _ in cmds]
+    else:
+        faults = [[] for _ in cmds]
+    return {"id": ix, "faults": faults, "classes": {"system": kind, "backup": bk, "package": pk}, "files": files, "extras": extras,
             "running": rng.random() < 0.6, "enabled": rng.random() < 0.6, "cmds": cmds}
 
 
@@ -219,7 +231,9 @@ def model_expr(sc, lay, accepts):
     files = clist(["(%s, (%d%%N, %s))" % (lay.coq_loc(k), sc["files"][k][0], cb(sc["files"][k][1])) for k in keys],
                   "(loc * file)")
     watch = clist([lay.coq_loc("X%d" % i) for i in sc["extras"]], "loc")
-    cmds = clist([model_cmd(c, accepts) for c in sc["cmds"]], "cmd")
+    fl = sc.get("faults") or [[] for _ in sc["cmds"]]
+    cmds = clist(["(%s, %s)" % (model_cmd(c, accepts), clist([cbool(x != 0) for x in f], "bool")) for c, f in zip(sc["cmds"], fl)],
+                 "(cmd * list bool)")
     return "run_scenario %s %s %s %s %s" % (files, watch, cbool(sc["running"]), cbool(sc["enabled"]), cmds)
 
 
@@ -248,7 +262,8 @@ def runner_input(sc, lay, binary):
     return {"id": sc["id"], "binary": binary, "setup_dir": lay.setup_dir, "snap": [lay.path[l] for l in SYS],
             "unit_dir": lay.unit_dir, "service": lay.service,
             "files": [[lay.render(k), m, d.hex()] for k, (m, d) in sorted(sc["files"].items())],
-            "running": sc["running"], "enabled": sc["enabled"], "cmds": sc["cmds"]}
+            "running": sc["running"], "enabled": sc["enabled"], "cmds": sc["cmds"],
+            "faults": sc.get("faults") or [[] for _ in sc["cmds"]]}
 
 
 def run_impl(ctx, inputs, workers=8):
@@ -318,6 +333,8 @@ def property_failures(sc, impl, contents):
     for i, step in enumerate(impl["steps"]):
         pre, post, args = states[i], states[i + 1], cmds[i]
         calls = step["calls"]
+        fl = (sc.get("faults") or [[]] * len(cmds))[i] if i < len(sc.get("faults") or []) else []
+        injected = any(f != 0 for f in fl[:len(calls)])     # some systemctl call of this command was made to fail
         # frame: no command alters anything outside the system locations, the backup folder, its own log
         bad = sorted(p for p in tree_diff(pre, post) if not path_allowed(p, pre, post))
         if bad:
@@ -334,19 +351,21 @@ def property_failures(sc, impl, contents):
         if starts and any(c[1] != post4 for c in calls[starts[0]:]):
             why.append("step %d %s replaced a system file after `systemctl start`" % (i, " ".join(args)))
         # install places exactly the packaged files
-        if args == ("install",) and step["rc"] == 0:
+        if args == ("install",):
             pkg = [pre["files"].get(p) for p in P_PKG]
             if all(pkg) and agent_runs(pkg[0], contents) and four(post) != pkg:
                 why.append("step %d install did not place exactly the packaged files" % i)
-            if all(pkg) and agent_runs(pkg[0], contents) and not post["running"]:
+            if all(pkg) and agent_runs(pkg[0], contents) and not any(c[0][:1] == ["start"] for c in calls):
                 why.append("step %d install did not start the service" % i)
+            if all(pkg) and agent_runs(pkg[0], contents) and not injected and not post["running"]:
+                why.append("step %d install left the service stopped although every systemctl call succeeded" % i)
         # restore without a backup changes nothing
         if args[:1] == ("restore",) and (P_BACKUP + "/Package/azure-proxy-agent") not in pre["files"]:
             ch = sorted(p for p in tree_diff(pre, post) if not p.startswith(P_TOOL_LOG))
             if ch or calls or pre["running"] != post["running"] or pre["enabled"] != post["enabled"]:
                 why.append("step %d restore without a backup changed %s / made %d systemctl calls" % (i, ch[:3], len(calls)))
         # uninstall package removes the installed files
-        if args == ("uninstall", "package") and step["rc"] == 0:
+        if args == ("uninstall", "package"):      # whatever systemctl answers
             left = [p for p in P_SYS if p in post["files"]]
             if left:
                 why.append("step %d uninstall package left %s" % (i, left))
@@ -357,7 +376,7 @@ def property_failures(sc, impl, contents):
             if ch or calls or rest:
                 why.append("step %d purge changed %s / left %s / made %d systemctl calls" % (i, ch[:3], rest[:3], len(calls)))
         # reversibility: backup; install; restore from an installed version
-        if cmds[i:i + 3] == [("backup",), ("install",), ("restore",)]:
+        if cmds[i:i + 2] == [("backup",), ("install",)] and cmds[i + 2:i + 3] and cmds[i + 2] in RESTORES:
             before = four(pre)
             if all(before):
                 after = states[i + 3]
@@ -369,7 +388,8 @@ def property_failures(sc, impl, contents):
                 if four(after) != before:
                     diff = [p for p, x, y in zip(P_SYS, before, four(after)) if x != y]
                     why.append("steps %d-%d backup; install; restore did not reinstate %s%s" % (i, i + 2, diff, tag))
-                if not after["running"]:
+                rfl = (sc.get("faults") or [])[i + 2] if i + 2 < len(sc.get("faults") or []) else []
+                if not after["running"] and not any(f != 0 for f in rfl[:len(rs["calls"])]):
                     why.append("steps %d-%d backup; install; restore left the service stopped%s" % (i, i + 2, tag))
                 if not any(c[0][:1] == ["start"] for c in rs["calls"]):
                     why.append("steps %d-%d restore did not start the service again%s" % (i, i + 2, tag))
@@ -395,18 +415,25 @@ def corpus_scenarios():
     triple = [["backup"], ["install"], ["restore"]]
     out = []
 
-    def add(name, files, cmds, running=True, enabled=True, extras=()):
+    def add(name, files, cmds, running=True, enabled=True, extras=(), faults=None):
         files = dict(files)
         for i in extras:
             files["X%d" % i] = (0o644, b"extra-%d" % i)
         out.append({"id": -1 - len(out), "classes": {"system": name, "backup": name, "package": name}, "files": files,
-                    "extras": sorted(extras), "running": running, "enabled": enabled, "cmds": cmds})
+                    "extras": sorted(extras), "running": running, "enabled": enabled, "cmds": cmds,
+                    "faults": list(faults) if faults else [[] for _ in cmds]})
     add("corpus:upgrade-and-rollback", {**old, **pkg}, triple + [["restore"], ["purge"]], extras=(0, 2, 4, 5))
     add("corpus:stale-backup", {**old, **pkg, **stale}, triple, extras=(9, 10))
     add("corpus:agent-not-runnable (C17-K1)", {**old, **pkg, "SysExe": ag("1.0.1", 0o644)}, triple)
     add("corpus:partial-install", {k: v for k, v in {**old, **pkg}.items() if k != "SysEbpf"}, triple)
     add("corpus:nothing-installed", dict(pkg), triple + [["uninstall", "package"]], running=False, enabled=False)
     add("corpus:broken-package", {**old, "PkgCfg": pkg["PkgCfg"]}, triple)
+    add("corpus:uninstall-twice (systemctl exits 5 for the missing unit)", {**old, **pkg}, [["uninstall", "service"], ["uninstall", "package"], ["uninstall", "package"]])
+    add("corpus:uninstall-without-unit", {k: v for k, v in {**old, **pkg}.items() if k != "SysUnit"}, [["uninstall", "package"]])
+    add("corpus:stop-fails-everywhere", {**old, **pkg}, triple + [["uninstall", "package"]],
+        faults=[[], [4, 0, 0, 0, 0], [1, 0, 0, 0, 0], [1, 1, 0]])
+    add("corpus:start-and-enable-fail", {**old, **pkg}, triple, faults=[[], [0, 0, 0, 1, 1], [0, 0, 0, 5, 1]])
+    add("corpus:two-cycles-keep-backup", {**old, **pkg}, [["backup"], ["install"], ["restore", "false"], ["backup"], ["install"], ["restore"]])
     add("corpus:uninstall-purge", {**old, **pkg, **stale}, [["uninstall", "package"], ["purge"], ["restore"], ["install"]], extras=(9, 11, 5))
     return out
 
@@ -524,7 +551,7 @@ def run(ctx):
     disagreements, failures = [], []
     nsteps = agree_steps = 0
     classes = set()
-    stats = {"commands": {}, "exit_codes": {}, "triples_from_installed": 0, "triples_from_known_class_K1": 0, "system_class": {}, "backup_class": {}, "package_class": {}}
+    stats = {"commands": {}, "exit_codes": {}, "triples_from_installed": 0, "triples_from_known_class_K1": 0, "commands_with_injected_systemctl_failure": 0, "systemctl_exit_codes": {}, "system_class": {}, "backup_class": {}, "package_class": {}}
     samples = []
     for sc, mr in zip(scenarios, mres):
         ir = impl[sc["id"]]
@@ -532,6 +559,7 @@ def run(ctx):
         msteps = model_steps(sc, lay, mr) if mr is not None else []
         diffs = compare(sc, lay, msteps, ir) if mr is not None else []
         case = {"id": sc["id"], "classes": sc["classes"], "running": sc["running"], "enabled": sc["enabled"], "cmds": sc["cmds"],
+                "faults": sc.get("faults"),
                 "files": [[lay.render(k), "%o" % m, d.hex()] for k, (m, d) in sorted(sc["files"].items())],
                 "replay": "python3 tools/checks/c17.py <this replay file>   # re-runs the case on the real binary and re-evaluates the property"}
         nsteps += len(ir["steps"])
@@ -548,12 +576,17 @@ def run(ctx):
             a = " ".join(s["args"])
             stats["commands"][a] = stats["commands"].get(a, 0) + 1
             stats["exit_codes"][str(s["rc"])] = stats["exit_codes"].get(str(s["rc"]), 0) + 1
+            for c in s["calls"]:
+                stats["systemctl_exit_codes"][str(c[2])] = stats["systemctl_exit_codes"].get(str(c[2]), 0) + 1
+            if any(f != 0 for f in (sc.get("faults") or [[]] * (i + 1))[i][:len(s["calls"])]):
+                stats["commands_with_injected_systemctl_failure"] += 1
             pre = states[i]
             bits = tuple(lay.path[l] in pre["files"] for l in FIXED)
             runs = tuple(agent_runs(pre["files"].get(lay.path[l]), contents) for l in ("SysExe", "PkgExe", "BakExe"))
             if tree_diff(pre, s["state"]) - {p for p in tree_diff(pre, s["state"]) if p.startswith(lay.tool_log)} or s["calls"]:
                 classes.add((a, bits, runs, pre["running"], pre["enabled"]))
-            if [tuple(x["args"]) for x in ir["steps"][i:i + 3]] == [("backup",), ("install",), ("restore",)] and all(four(pre)):
+            nxt = [tuple(x["args"]) for x in ir["steps"][i:i + 3]]
+            if nxt[:2] == [("backup",), ("install",)] and len(nxt) == 3 and nxt[2] in RESTORES and all(four(pre)):
                 stats["triples_from_installed" if runs[0] else "triples_from_known_class_K1"] += 1
         if len(samples) < 3 and len(ir["steps"]) >= 3:
             samples.append({"case": case, "impl": [{"args": s["args"], "rc": s["rc"], "calls": [c[0] for c in s["calls"]], "running": s["state"]["running"],
@@ -602,10 +635,11 @@ def main(argv):
             path2key[lay.render("X%d" % i)] = "X%d" % i
         files = {path2key[p]: (int(m, 8), bytes.fromhex(h)) for p, m, h in case["files"]}
         sc = {"id": 0, "files": files, "extras": sorted(int(k[1:]) for k in files if k.startswith("X")),
-              "running": case["running"], "enabled": case["enabled"], "cmds": case["cmds"]}
+              "running": case["running"], "enabled": case["enabled"], "cmds": case["cmds"],
+              "faults": case.get("faults") or [[] for _ in case["cmds"]]}
         ir = run_impl(ctx, [runner_input(sc, lay, binary)], workers=1)[0]
         for s in ir["steps"]:
-            print(" ".join(s["args"]), "-> rc", s["rc"], "calls", [" ".join(c[0]) for c in s["calls"]],
+            print(" ".join(s["args"]), "-> rc", s["rc"], "calls", [" ".join(c[0]) + " (exit %d)" % c[2] for c in s["calls"]],
                   "running", s["state"]["running"], "enabled", s["state"]["enabled"])
             for p in P_SYS:
                 print("    ", p, s["state"]["files"].get(p))
